@@ -1,4 +1,5 @@
 import BM.Sanitize
+import BM.Props.Pins
 import BM.Proofs.Prov
 /-
   C12: forced attributes.  Proved for every policy, element and attribute list:
